@@ -46,6 +46,9 @@ StressOK(c, r) ==
                          /\ \A j \in DOMAIN r.segs :
                                LET E == LSumMag(r.cs, IF j = 1 THEN LInt(0) ELSE LMulMag(r.hd, j - 1))
                                IN  (j <= 32000 /\ E[2] < 32000 /\ r.cs[1] >= 0) => LWithin(r.segs[j][1], E, LUlps4(E[2] + 1))
+                         \* on a non-representable unit the last window may be won or lost to rounding at the clip end, but only that
+                         \* one: the number of segments differs from the exact count by at most one
+                         /\ Len(r.segs) \in (Len(ReqWindows(c)) - 1)..(Len(ReqWindows(c)) + 1)
                          /\ \A k \in DOMAIN r.segs : /\ LLe(r.cs, r.segs[k][1])
                                                       /\ LLt(r.segs[k][1], r.segs[k][2])
                                                       /\ LLe(r.segs[k][2], r.ce)
